@@ -7,6 +7,7 @@ package main
 // (Model/Check11.v: the Coq model must accept the observed trace and produce the same results).
 
 import (
+	"berty.tech/go-ipfs-log/enc"
 	"context"
 	"encoding/hex"
 	"encoding/json"
@@ -59,10 +60,21 @@ type c11Dag struct {
 	order   []cid.Cid // entry cids, sorted by cid string
 }
 
+// c11LinkKey, when set, makes c11IO return a cbor IO that encrypts the next/refs links of the blocks
+// it writes (set per history by the runner, before the history's logs are created)
+var c11LinkKey []byte
+
 func c11IO() iface.IO {
 	io, err := cbor.IO(&entry.Entry{}, &entry.LamportClock{})
 	if err != nil {
 		panic(err)
+	}
+	if c11LinkKey != nil {
+		key, err := enc.NewSecretbox(c11LinkKey)
+		if err != nil {
+			panic(err)
+		}
+		return io.ApplyOptions(&cbor.Options{LinkKey: key})
 	}
 	return io
 }
